@@ -188,6 +188,9 @@ def oracle(fmt, mn, mx, st, val, impl):
                                               f"significant digits of a nearest grid point (nearest admissible: {float_of(cands[0])!r})")
         if "hi" in sp and not (sp["lo"] - tol <= got <= sp["hi"] + tol):
             return ("frac:outside-range", f"{impl} outside [{mn!r}, {mx!r}] although both bounds are on the grid")
+        if "hi" in sp and sp.get("strict") and not (float_of(sp["lo"]) <= float_of(got) <= float_of(sp["hi"])):
+            return ("frac:outside-range:six-digit-bounds", f"{impl} outside [{mn!r}, {mx!r}] although both bounds are on the grid and have "
+                                                           f"at most six significant digits")
     return None
 
 
@@ -217,7 +220,7 @@ def gen_grid(tier):
     cases = []
     for mx in range(0, 21):
         for mn in range(0, mx + 1):
-            for st in range(1, max(1, mx - mn) + 2):
+            for st in range(1, 22):
                 for v in range(-1, mx + 4):
                     cases.append(("uint8", mn, mx, st, v))
     # the same values arriving as text and as float, on a slice
@@ -483,8 +486,9 @@ def run(ctx):
     for v in viols:
         v["payload"]["occurrences"] = seen_keys[v["key"]]
     cov.extra["exhaustive"] = True
-    cov.extra["exhaustive_part"] = ("grid: every uint8 characteristic with 0 <= min <= max <= 20, step 1..max(1,max-min)+1 and every "
-                                    "integer input -1..max+3 (plus a 3/7 slice of them as str / float / float metadata)")
+    cov.extra["exhaustive_part"] = ("grid: every uint8 characteristic with 0 <= min <= max <= 20, every integer step 1..21 and every "
+                                    "integer input -1..max+3 (inputs beyond that clamp to the same value), plus a 3/7 slice of "
+                                    "them as str / float / float metadata")
     cov.extra["domain_exclusions"] = ("decimal exponent range Emin/Emax (+-999999) is not modelled: generated values keep |exponent| < 400 and "
                                       "float() overflow (|x| >= 1.8e308) is outside the domain; formats string/data/tlv8/array/dict are "
                                       "not part of C14")
